@@ -39,3 +39,15 @@ M("tcp-send-overwrites-pending", ["C01"], TCP,
 M("tls-mbuf-sent-reset", ["C01"], TLS, "\tts->conn.mbuf_sent += rc;\n", "\tts->conn.mbuf_sent = rc;\n")
 M("tcp-truncate-drops-next", ["C01"], TCP,
   "\tuser_len = capacity;\n    } else", "\tuser_len = capacity - (capacity > 8);\n    } else")
+
+# ---- C19
+MAP = "libxcm/core/xcm_attr_map.c"
+PATH = "libxcm/core/attr_path.c"
+M("map-add-no-del", ["C19"], MAP, "    xcm_attr_map_del(attr_map, attr_name);\n\n    struct attr *attr =", "    struct attr *attr =")
+M("map-store-caller-pointer", ["C19"], MAP, ".value = ut_memdup(value, value_len),", ".value = (void *)value,")
+M("map-equal-ignores-values", ["C19"], MAP, "\tif (memcmp(attr_a->value, attr_b->value, attr_a->value_len) != 0)\n\t    return false;\n", "")
+M("map-typed-lookup-ignores-type", ["C19"], MAP, "return attr->type == type ? attr : NULL;", "return attr;")
+M("path-index-hex", ["C19"], PATH, '"%c%zd%c",\n\t\t\t\tATTR_PATH_INDEX_START', '"%c%zx%c",\n\t\t\t\tATTR_PATH_INDEX_START')
+M("path-no-name-max", ["C19"], PATH, "    if (strlen(path_str) > ATTR_PATH_NAME_MAX)\n\treturn NULL;\n", "")
+M("path-no-comp-max", ["C19"], PATH, "\tif (path->num_comps == ATTR_PATH_COMP_MAX) {\n\t    attr_path_destroy(path);\n\t    return NULL;\n\t}\n", "")
+M("map-clone-shallow-size", ["C19"], MAP, "    if (dst_map != src_map)\n", "    if (1)\n")
